@@ -67,12 +67,16 @@ pub fn gen_req(rng: &mut Rng, keep: bool, noise_level: u64, mc: usize, bufsize: 
     // ---- handler script
     let mut ops: Vec<String> = vec![]; let mut reads_all = vec![]; let mut outs = vec![];
     let streams = role_streams(role);
-    let read_mode = rng.below(5);
+    // large-buffer requests avoid the read-to-end op: the MODEL's handler fuel per poll is 1000 + 4·(bytes still in the transport), and
+    // read-to-end takes one unit per 64 bytes — with > 64 KB already buffered in a > 64 KiB parser buffer the model (not the code)
+    // would run out (a model-fuel artefact, DESIGN §14.4); single reads of up to 70 000 bytes cost one unit each
+    let large = bufsize > 65_535;
+    let read_mode = if large { *rng.pick(&[1u64, 1, 2, 4]) } else { rng.below(5) };
     for (i, &s) in streams.iter().enumerate() {
         if i > 0 { ops.push(format!("s{s}")); }
         match read_mode {
             0 => { ops.push("R".into()); reads_all.push(s); }
-            1 => { let n = 1 + rng.usize_below(3); for _ in 0..n { ops.push(format!("r{}", rng.usize_below(40))); } }
+            1 => { let n = 1 + rng.usize_below(3); for _ in 0..n { ops.push(format!("r{}", if large { *rng.pick(&[0usize, 1, 39, 8192, 65_535, 65_536, 70_000]) } else { rng.usize_below(40) })); } }
             2 => { let n = 1 + rng.usize_below(3); for _ in 0..n { ops.push("f".into()); ops.push(format!("c{}", rng.usize_below(30))); } }
             3 => { ops.push("f".into()); ops.push("c9999".into()); ops.push("R".into()); reads_all.push(s); }
             _ => {}
